@@ -330,6 +330,75 @@ int main(int argc, char **argv)
                         }
                         if (fd >= 0) close(fd);
                 }
+                /* C07 "any segmentation": a carried partial block followed by ONE update of more than 4 GiB (lengths are
+                   64-bit; 32-bit handling of a length shows only here).  Input and output windows alias 2 MiB memfd
+                   patterns; OpenSSL (fed in 1 GiB pieces) is the oracle: tag and final window contents must agree.
+                   Thorough tier only (VERIF_GCM_BIG=1): ~4 GiB through each family and key size. */
+                if (getenv("VERIF_GCM_BIG")) {
+                        size_t P = 2u << 20;
+                        uint64_t biglen = (1ull << 32) + 16;        /* window size; the lengths used are at most this */
+                        size_t win = ((size_t) biglen + 2 * P) / P * P;     /* whole multiple of the pattern size */
+                        int fi = memfd_create("gin", 0), fo1 = memfd_create("gout1", 0), fo2 = memfd_create("gout2", 0);
+                        uint8_t *bi = MAP_FAILED, *bo1 = MAP_FAILED, *bo2 = MAP_FAILED;
+                        if (fi >= 0 && fo1 >= 0 && fo2 >= 0 && !ftruncate(fi, P) && !ftruncate(fo1, P) && !ftruncate(fo2, P)) {
+                                bi = mmap(NULL, win, PROT_NONE, MAP_PRIVATE | MAP_ANONYMOUS | MAP_NORESERVE, -1, 0);
+                                bo1 = mmap(NULL, win, PROT_NONE, MAP_PRIVATE | MAP_ANONYMOUS | MAP_NORESERVE, -1, 0);
+                                bo2 = mmap(NULL, win, PROT_NONE, MAP_PRIVATE | MAP_ANONYMOUS | MAP_NORESERVE, -1, 0);
+                        }
+                        if (bi != MAP_FAILED && bo1 != MAP_FAILED && bo2 != MAP_FAILED) {
+                                for (size_t o = 0; o < win; o += P) {
+                                        mmap(bi + o, P, PROT_READ | PROT_WRITE, MAP_SHARED | MAP_FIXED, fi, 0);
+                                        mmap(bo1 + o, P, PROT_READ | PROT_WRITE, MAP_SHARED | MAP_FIXED, fo1, 0);
+                                        mmap(bo2 + o, P, PROT_READ | PROT_WRITE, MAP_SHARED | MAP_FIXED, fo2, 0);
+                                }
+                                xs_bytes(seed | 3, bi, P);
+                                uint8_t key[32], iv[12], aad[20], head[16], hout[16], hout2[16], tag[16], otag[16];
+                                xs_bytes(seed + 91, key, 32); xs_bytes(seed + 92, iv, 12); xs_bytes(seed + 93, aad, 20); xs_bytes(seed + 94, head, 16);
+                                for (int b = 0; b < 2; b++) {
+                                        int dec = b;                         /* 128-bit encrypt, 256-bit decrypt */
+                                        uint32_t r0 = 1 + rng_below(&R, 15); /* carried partial block */
+                                        /* the long update does not by itself complete the carried block modulo 2^32 (b = 0), or is arbitrary (b = 1) */
+                                        uint64_t thislen = (1ull << 32) + (b ? rng_below(&R, 16) : rng_below(&R, 16 - r0));
+                                        memset(kd, 0, sizeof(KD));
+                                        if (is_pub) { if (b) isal_aes_gcm_pre_256(key, kd); else isal_aes_gcm_pre_128(key, kd); }
+                                        else { uint8_t t[240]; if (b) _aes_keyexp_256_sse(key, kd->expanded_keys, t); else _aes_keyexp_128_sse(key, kd->expanded_keys, t); G->pre[b](kd); }
+                                        uint64_t l2 = G->nt ? thislen - thislen % 64 : thislen;
+                                        if (G->nt) r0 = 0;                   /* the _nt updates take whole 64-byte multiples only */
+                                        G->init[b](kd, cd, iv, aad, 20);
+                                        if (r0) (dec ? G->udec[b] : G->uenc[b])(kd, cd, hout, head, r0);
+                                        (dec ? G->udec[b] : G->uenc[b])(kd, cd, bo1, bi, l2);
+                                        (dec ? G->fdec[b] : G->fenc[b])(kd, cd, tag, 16);
+                                        EVP_CIPHER_CTX *c = EVP_CIPHER_CTX_new();
+                                        int l;
+                                        if (dec) EVP_DecryptInit_ex(c, b ? EVP_aes_256_gcm() : EVP_aes_128_gcm(), NULL, key, iv);
+                                        else EVP_EncryptInit_ex(c, b ? EVP_aes_256_gcm() : EVP_aes_128_gcm(), NULL, key, iv);
+                                        (dec ? EVP_DecryptUpdate : EVP_EncryptUpdate)(c, NULL, &l, aad, 20);
+                                        if (r0) (dec ? EVP_DecryptUpdate : EVP_EncryptUpdate)(c, hout2, &l, head, (int) r0);
+                                        for (uint64_t o = 0; o < l2; o += 1u << 30) {
+                                                uint64_t n = l2 - o < (1u << 30) ? l2 - o : (1u << 30);
+                                                (dec ? EVP_DecryptUpdate : EVP_EncryptUpdate)(c, bo2 + o, &l, bi + o, (int) n);
+                                        }
+                                        if (dec) {
+                                                /* the tag of a decryption is computed over the ciphertext = our input: take it from an encrypt-side GHASH:
+                                                   OpenSSL only verifies; so compare outputs, and check that OpenSSL accepts ISA-L's tag */
+                                                EVP_CIPHER_CTX_ctrl(c, EVP_CTRL_GCM_SET_TAG, 16, tag);
+                                                int okf = EVP_DecryptFinal_ex(c, otag, &l);
+                                                if (okf <= 0) monitor("C07-big-update-tag-rejected-by-oracle", (long) r0);
+                                        } else {
+                                                EVP_EncryptFinal_ex(c, otag, &l);
+                                                EVP_CIPHER_CTX_ctrl(c, EVP_CTRL_GCM_GET_TAG, 16, otag);
+                                                if (memcmp(tag, otag, 16)) monitor("C07-big-update-tag-differs-from-oracle", (long) r0);
+                                        }
+                                        EVP_CIPHER_CTX_free(c);
+                                        if (r0 && memcmp(hout, hout2, r0)) monitor("C07-big-update-head-differs-from-oracle", (long) r0);
+                                        if (memcmp(bo1, bo2, P)) monitor("C07-big-update-output-differs-from-oracle", (long) r0);
+                                }
+                                munmap(bi, win); munmap(bo1, win); munmap(bo2, win);
+                        } else monitor("C07-big-update-setup-failed", 0);
+                        if (fi >= 0) close(fi);
+                        if (fo1 >= 0) close(fo1);
+                        if (fo2 >= 0) close(fo2);
+                }
                 while (done < nops) {
                         int b = rng_below(&R, 2);
                         int bits = b ? 256 : 128;
